@@ -1315,6 +1315,10 @@ class Engine:
         return t
 
     def set_attr(self, obj, attr, v, st, node=None):
+        if isinstance(obj, VModule):
+            # attribute of a seam / library object (e.g. a logger): no effect the contracts can observe
+            yield st
+            return
         if isinstance(obj, V) and isinstance(obj.kind, Ref):
             cls = obj.kind.cls
             h = self.schema_lookup(cls, "setters", attr)
